@@ -123,6 +123,7 @@ type Task struct {
 	Rec      *Recorder
 	Result   interface{}
 	CustomID string // id a scripted delegate gave the activity (custom actors)
+	Held     []byte // txsim: the very slice Dereference returned, kept by the caller
 	Panic    interface{}
 	PanicStk string
 	StartSeq int
